@@ -27,6 +27,98 @@ theorem Cont_def (pb pc after : Nat) (o : TOut W) : Cont cfg P base pb pc after 
          (fun l st f => execM₀ cfg f P l base (pb+1) st)
          (fun l st f => execM₀ cfg f P l base (pc+1) st) := rfl
 
+/-- the enclosing loop's labels are where `pb` / `pc` say; the continue label is only required to exist when the code
+in question uses `continue` (a `for` loop emits its continue label only then) -/
+def LpOK (lp : Option (Name × Name)) (pb pc : Nat) (uses : Bool) : Prop :=
+  ∀ bl cl, lp = some (bl, cl) → findLabel P bl = some pb ∧ (uses = true → findLabel P cl = some pc)
+
+theorem LpOK.mono {P : List Stmt} {lp : Option (Name × Name)} {pb pc : Nat} {u u' : Bool}
+    (h : LpOK P lp pb pc u) (hu : u' = true → u = true) : LpOK P lp pb pc u' :=
+  fun bl cl e => ⟨(h bl cl e).1, fun hu' => (h bl cl e).2 (hu hu')⟩
+
+/-! ## congruence of the machine-side combinators in their continuation (only smaller fuel matters) -/
+
+theorem mtick_congr (fuel : Nat) (st : State W) (k1 k2 : Nat → State W → Res W)
+    (h : ∀ f' st1, f' < fuel → k1 f' st1 = k2 f' st1) : mtick cfg fuel st k1 = mtick cfg fuel st k2 := by
+  cases fuel with
+  | zero => rfl
+  | succ f => simp only [mtick]; split
+              · rfl
+              · exact h f _ (Nat.lt_succ_self f)
+
+theorem mExpr_congr (cv : CallAt W) (n : Option Name) (e : Expr) (fuel : Nat) (l : Option Env) (st : State W)
+    (k1 k2 : Option Env → State W → Nat → Res W) (h : ∀ l' st' f', f' < fuel → k1 l' st' f' = k2 l' st' f') :
+    mExpr cfg cv n e fuel l st k1 = mExpr cfg cv n e fuel l st k2 := by
+  unfold mExpr; apply mtick_congr; intro f' st1 hlt
+  cases evalExpr cfg (cv f') l e st1 with
+  | ok v st2 => cases n <;> exact h _ _ _ hlt
+  | err e st2 => rfl
+  | oof => rfl
+
+theorem mCond_congr (cv : CallAt W) (c : Expr) (fuel : Nat) (l : Option Env) (st : State W)
+    (k1 k2 : Bool → Nat → State W → Res W) (h : ∀ t f' st', f' < fuel → k1 t f' st' = k2 t f' st') :
+    mCond cfg cv c fuel l st k1 = mCond cfg cv c fuel l st k2 := by
+  unfold mCond; apply mtick_congr; intro f' st1 hlt
+  cases evalExpr cfg (cv f') l c st1 with
+  | ok v st2 => exact h _ _ _ hlt
+  | err e st2 => rfl
+  | oof => rfl
+
+theorem mSkip_congr (fuel : Nat) (l : Option Env) (st : State W)
+    (k1 k2 : Option Env → State W → Nat → Res W) (h : ∀ l' st' f', f' < fuel → k1 l' st' f' = k2 l' st' f') :
+    mSkip cfg fuel l st k1 = mSkip cfg fuel l st k2 := by
+  unfold mSkip; apply mtick_congr; intro f' st1 hlt; exact h _ _ _ hlt
+
+/-! ## one machine step against one structured step -/
+
+/-- `match o with | .norm l st f => g l st f | o => o` as a named function -/
+def andThen (o : TOut W) (g : Option Env → State W → Nat → TOut W) : TOut W :=
+  match o with
+  | .norm l st f => g l st f
+  | o' => o'
+
+theorem bind_andThen (o : TOut W) (g : Option Env → State W → Nat → TOut W)
+    (kn kb kc : Option Env → State W → Nat → Res W) :
+    (andThen o g).bind kn kb kc = o.bind (fun l st f => (g l st f).bind kn kb kc) kb kc := by
+  cases o <;> rfl
+
+variable {cfg P base}
+
+theorem step_expr {f : Nat} {l : Option Env} {pc : Nat} {st : State W} {n : Option Name} {e : Expr}
+    (hg : P[pc]? = some (.expr n e)) (g : Option Env → State W → Nat → TOut W)
+    (kn kb kc : Option Env → State W → Nat → Res W)
+    (hk : ∀ l' st' f', f' < f → execM₀ cfg f' P l' base (pc+1) st' = (g l' st' f').bind kn kb kc) :
+    execM₀ cfg f P l base pc st = (andThen (stmtExpr cfg (callValue₀ cfg) n e f l st) g).bind kn kb kc := by
+  rw [exec_expr cfg f P l base pc st n e hg, bind_andThen, bind_stmtExpr]
+  exact mExpr_congr cfg _ _ _ _ _ _ _ _ hk
+
+theorem step_label {f : Nat} {l : Option Env} {pc : Nat} {st : State W} {lab : Name}
+    (hg : P[pc]? = some (.label lab)) (g : Option Env → State W → Nat → TOut W)
+    (kn kb kc : Option Env → State W → Nat → Res W)
+    (hk : ∀ l' st' f', f' < f → execM₀ cfg f' P l' base (pc+1) st' = (g l' st' f').bind kn kb kc) :
+    execM₀ cfg f P l base pc st = (andThen (stmtSkip cfg f l st) g).bind kn kb kc := by
+  rw [exec_label cfg f P l base pc st lab hg, bind_andThen, bind_stmtSkip]
+  exact mSkip_congr cfg _ _ _ _ _ hk
+
+theorem step_jump {f : Nat} {l : Option Env} {pc : Nat} {st : State W} {lab : Name} {tgt : Nat}
+    (hg : P[pc]? = some (.jump lab none)) (hf : findLabel P lab = some tgt) (g : Option Env → State W → Nat → TOut W)
+    (kn kb kc : Option Env → State W → Nat → Res W)
+    (hk : ∀ l' st' f', f' < f → execM₀ cfg f' P l' base (tgt+1) st' = (g l' st' f').bind kn kb kc) :
+    execM₀ cfg f P l base pc st = (andThen (stmtSkip cfg f l st) g).bind kn kb kc := by
+  rw [exec_jump cfg f P l base pc st lab tgt hg hf, bind_andThen, bind_stmtSkip]
+  exact mSkip_congr cfg _ _ _ _ _ hk
+
+theorem step_cond {f : Nat} {l : Option Env} {pc : Nat} {st : State W} {lab : Name} {c : Expr} {tgt : Nat}
+    (hg : P[pc]? = some (.jump lab (some c))) (hf : findLabel P lab = some tgt) (k : Bool → Nat → State W → TOut W)
+    (kn kb kc : Option Env → State W → Nat → Res W)
+    (hk : ∀ t f' st', f' < f →
+      (if t then execM₀ cfg f' P l base (tgt+1) st' else execM₀ cfg f' P l base (pc+1) st') = (k t f' st').bind kn kb kc) :
+    execM₀ cfg f P l base pc st = (stmtCond cfg (callValue₀ cfg) c f l st k).bind kn kb kc := by
+  rw [exec_cond cfg f P l base pc st lab c tgt hg hf, bind_stmtCond]
+  exact mCond_congr cfg _ _ _ _ _ _ _ hk
+
+variable (cfg P base)
+
 /-- entry offset of an else-chain inside its lowered list: after `label done` for no else, after `label cur` otherwise -/
 def elseEntry : SElse → Nat
   | .none => 1
@@ -180,6 +272,276 @@ theorem chain_lemma (lp : Option (Name × Name)) (pb pc : Nat) (c : Expr) (t : L
     | ret v st3 => rfl
     | err er st3 => rfl
     | oof => rfl
+
+/-- `while`: header test, `label loop`, the iterations (`loopW`), `label done` -/
+theorem while_lemma (lp : Option (Name × Name)) (pb pc : Nat) (c : Expr) (b : List SStmt) (i : Nat)
+    (hB : ∀ pbW pcW, findLabel P (lDone i) = some pbW → findLabel P (lLoop i) = some pcW →
+      SimB cfg P base (some (lDone i, lLoop i)) pbW pcW b (i+1))
+    (hnb : NoRawB b) (pre post : List Stmt)
+    (hP : P = pre ++ (lowerS lp (.while c b) i).1 ++ post)
+    (hf1 : Fresh pre i (cntB b (i+1))) (hf2 : Fresh post i (cntB b (i+1)))
+    (f : Nat) (l : Option Env) (st : State W) :
+    execM₀ cfg f P l base pre.length st =
+      Cont cfg P base pb pc (pre.length + (lowerS lp (.while c b) i).1.length)
+        (execTS cfg (callValue₀ cfg) (execIncludes₀ cfg) lp.isSome (.while c b) i f l base st) := by
+  have rb := lowerB_range (some (lDone i, lLoop i)) b (i+1) hnb
+  have cb := cntB_le b (i+1)
+  simp only [lowerS] at hP ⊢
+  generalize hT : (lowerB (some (lDone i, lLoop i)) b (i+1)).1 = T at *
+  have hP' : P = pre ++ .jump (lDone i) (some (notE c)) :: .label (lLoop i) :: (T ++
+      .jump (lLoop i) (some c) :: .label (lDone i) :: post) := by
+    rw [hP]; simp [List.append_assoc]
+  have hgH : P[pre.length]? = some (.jump (lDone i) (some (notE c))) := get_at hP' rfl
+  have hgL : P[pre.length + 1]? = some (.label (lLoop i)) :=
+    get_at (A := pre ++ [.jump (lDone i) (some (notE c))]) (B := T ++
+      .jump (lLoop i) (some c) :: .label (lDone i) :: post) (by rw [hP']; simp) (by simp)
+  have hgF : P[pre.length + 2 + T.length]? = some (.jump (lLoop i) (some c)) :=
+    get_at (A := pre ++ .jump (lDone i) (some (notE c)) :: .label (lLoop i) :: T)
+      (B := .label (lDone i) :: post) (by rw [hP']; simp) (by simp <;> omega)
+  have hgD : P[pre.length + 2 + T.length + 1]? = some (.label (lDone i)) :=
+    get_at (A := pre ++ .jump (lDone i) (some (notE c)) :: .label (lLoop i) :: (T ++
+      [.jump (lLoop i) (some c)])) (B := post) (by rw [hP']; simp) (by simp <;> omega)
+  have hfl : findLabel P (lLoop i) = some (pre.length + 1) :=
+    find_at (A := pre ++ [.jump (lDone i) (some (notE c))]) (B := T ++
+      .jump (lLoop i) (some c) :: .label (lDone i) :: post) (by rw [hP']; simp) (by simp)
+      (by
+        intro hm
+        simp only [List.mem_append, List.mem_cons, List.not_mem_nil, or_false, false_or, reduceCtorEq] at hm
+        exact hf1 .loop i (Nat.le_refl _) (by omega) hm)
+  have hfd : findLabel P (lDone i) = some (pre.length + 2 + T.length + 1) :=
+    find_at (A := pre ++ .jump (lDone i) (some (notE c)) :: .label (lLoop i) :: (T ++
+      [.jump (lLoop i) (some c)])) (B := post) (by rw [hP']; simp) (by simp <;> omega)
+      (by
+        intro hm
+        simp only [List.mem_append, List.mem_cons, List.not_mem_nil, or_false, false_or, reduceCtorEq,
+          Stmt.label.injEq, lDone, lLoop, Name.gen.injEq, false_and] at hm
+        rcases hm with hm | hm
+        · exact hf1 .done i (Nat.le_refl _) (by omega) hm
+        · obtain ⟨K, k, he, a, b⟩ := rb _ hm
+          simp only [Name.gen.injEq] at he; omega)
+  have hbody := hB _ _ hfd hfl (pre ++ [.jump (lDone i) (some (notE c)), .label (lLoop i)])
+    (.jump (lLoop i) (some c) :: .label (lDone i) :: post) hnb
+    (by rw [hP', hT]; simp)
+    (by
+      intro K k a b hm
+      simp only [List.mem_append, List.mem_cons, List.not_mem_nil, or_false, false_or, reduceCtorEq,
+        Stmt.label.injEq, lLoop, Name.gen.injEq] at hm
+      rcases hm with hm | hm
+      · exact hf1 K k (by omega) b hm
+      · omega)
+    (by
+      intro K k a b hm
+      simp only [List.mem_cons, reduceCtorEq, false_or, Stmt.label.injEq, lDone, Name.gen.injEq] at hm
+      rcases hm with hm | hm
+      · omega
+      · exact hf2 K k (by omega) b hm)
+  simp only [List.length_append, List.length_cons, List.length_nil, hT, Option.isSome_some] at hbody
+  -- the iterations
+  have hloop : ∀ n f l st, f < n → execM₀ cfg f P l base (pre.length + 2) st =
+      Cont cfg P base pb pc (pre.length + (2 + T.length + 2))
+        (loopW cfg (callValue₀ cfg) c
+          (fun f l s => execTB cfg (callValue₀ cfg) (execIncludes₀ cfg) true b (i+1) f l base s) n f l st) := by
+    intro n
+    induction n with
+    | zero => intro f l st h; omega
+    | succ n ih =>
+      intro f l st hlt
+      have hb := hbody f l st
+      have hok := execTB_ok cfg (callValue₀ cfg) (execIncludes₀ cfg) true b (i+1) f l base st
+      rw [show pre.length + (0 + 1 + 1) = pre.length + 2 by omega] at hb
+      rw [hb, loopW]
+      cases hO : execTB cfg (callValue₀ cfg) (execIncludes₀ cfg) true b (i+1) f l base st with
+      | norm l1 st1 f1 =>
+        simp only [hO, FuelOK] at hok
+        show execM₀ cfg f1 P l1 base _ st1 = (stmtCond _ _ _ _ _ _ _).bind _ _ _
+        refine step_cond hgF hfl _ _ _ _ ?_
+        intro t f2 st2 hlt2
+        cases t with
+        | true =>
+          simp only [if_true]
+          exact ih f2 l1 st2 (by omega)
+        | false =>
+          simp only [Bool.false_eq_true, if_false]
+          rw [bind_stmtSkip, exec_label cfg f2 P l1 base _ st2 _ hgD]
+          congr 1; funext l st f; congr 1; omega
+      | brk l1 st1 f1 =>
+        show execM₀ cfg f1 P l1 base _ st1 = execM₀ cfg f1 P l1 base _ st1
+        congr 1; omega
+      | cont l1 st1 f1 =>
+        simp only [hO, FuelOK] at hok
+        show execM₀ cfg f1 P l1 base _ st1 = _
+        exact ih f1 l1 st1 (by omega)
+      | ret v st1 => rfl
+      | err e st1 => rfl
+      | oof => rfl
+  rw [execTS]
+  refine step_cond hgH hfd _ _ _ _ ?_
+  intro t f1 st1 _
+  cases t with
+  | true =>
+    simp only [if_true]
+    show execM₀ cfg f1 P l base _ st1 = execM₀ cfg f1 P l base _ st1
+    congr 1; simp <;> omega
+  | false =>
+    simp only [Bool.false_eq_true, if_false]
+    refine step_label hgL _ _ _ _ ?_
+    intro l2 st2 f2 _
+    have := hloop (f2+1) f2 l2 st2 (Nat.lt_succ_self _)
+    simp only [List.length_append, List.length_cons, List.length_nil] at this ⊢
+    rw [show pre.length + 1 + 1 = pre.length + 2 by omega, this, Cont_def]
+
+/-- the part of a `for` iteration after the (optional) `label continue`: index increment, test, next iteration or
+`label done` -/
+def forAfter (cv : CallAt W) (i : Nat) (v ixv : Name) (hc : Bool) (body : Nat → Option Env → State W → TOut W) (n : Nat)
+    (l2 : Option Env) (st2 : State W) (f2 : Nat) : TOut W :=
+  andThen (stmtExpr cfg cv (some ixv) (.binary .add (.variable ixv) (.number 1)) f2 l2 st2) fun l3 st3 f3 =>
+    stmtCond cfg cv (.binary .lt (.variable ixv) (.variable (vLength i))) f3 l3 st3 fun taken f4 st4 =>
+      if taken then loopF cfg cv i v ixv hc body n f4 l3 st4 else stmtSkip cfg f4 l3 st4
+
+theorem loopF_succ (cv : CallAt W) (i : Nat) (v ixv : Name) (hc : Bool) (body : Nat → Option Env → State W → TOut W) (n : Nat)
+    (f : Nat) (l : Option Env) (st : State W) :
+    loopF cfg cv i v ixv hc body (n+1) f l st =
+      andThen (stmtExpr cfg cv (some v) (.function fnArrayGet [.variable (vValues i), .variable ixv]) f l st) fun l0 st0 f0 =>
+        match body f0 l0 st0 with
+        | .norm l1 st1 f1 =>
+            if hc then andThen (stmtSkip cfg f1 l1 st1) (forAfter cfg cv i v ixv hc body n)
+            else forAfter cfg cv i v ixv hc body n l1 st1 f1
+        | .cont l1 st1 f1 => forAfter cfg cv i v ixv hc body n l1 st1 f1
+        | .brk l1 st1 f1 => .norm l1 st1 f1
+        | o => o := by
+  cases hc <;> rfl
+
+/-- `for`: header (values, length, emptiness test, index, `label loop`), the iterations (`loopF`), `label done` -/
+theorem for_lemma (lp : Option (Name × Name)) (pb pc : Nat) (v : Name) (ix : Option Name) (vals : Expr) (b : List SStmt) (i : Nat)
+    (hB : ∀ pbW pcW, findLabel P (lDone i) = some pbW → (usesContB b = true → findLabel P (lCont i) = some pcW) →
+      SimB cfg P base (some (lDone i, lCont i)) pbW pcW b (i+1))
+    (hnb : NoRawB b) (pre post : List Stmt)
+    (hP : P = pre ++ (lowerS lp (.for v ix vals b) i).1 ++ post)
+    (hf1 : Fresh pre i (cntB b (i+1))) (hf2 : Fresh post i (cntB b (i+1)))
+    (f : Nat) (l : Option Env) (st : State W) :
+    execM₀ cfg f P l base pre.length st =
+      Cont cfg P base pb pc (pre.length + (lowerS lp (.for v ix vals b) i).1.length)
+        (execTS cfg (callValue₀ cfg) (execIncludes₀ cfg) lp.isSome (.for v ix vals b) i f l base st) := by
+  have rb := lowerB_range (some (lDone i, lCont i)) b (i+1) hnb
+  have cb := cntB_le b (i+1)
+  rw [execTS]
+  simp only [lowerS, forFooter] at hP ⊢
+  generalize hT : (lowerB (some (lDone i, lCont i)) b (i+1)).1 = T at *
+  generalize hixv : ix.getD (vIndex i) = ixv at *
+  generalize hhc : usesContB b = hc at *
+  generalize hC : (if hc = true then [Stmt.label (lCont i)] else []) = C at *
+  have hCl : ∀ l, Stmt.label l ∈ C → l = lCont i := by
+    intro l hl; subst hC; cases hc <;> simp at hl; exact hl
+  have hCn : C.length = if hc then 1 else 0 := by subst hC; cases hc <;> rfl
+  have hCle : C.length ≤ 1 := by rw [hCn]; cases hc <;> simp
+  simp only [forHeader] at hP ⊢
+  have hP' : P = pre ++ .expr (some (vValues i)) vals ::
+      .expr (some (vLength i)) (.function fnArrayLength [.variable (vValues i)]) ::
+      .jump (lDone i) (some (notE (.variable (vLength i)))) ::
+      .expr (some ixv) (.number 0) ::
+      .label (lLoop i) ::
+      .expr (some v) (.function fnArrayGet [.variable (vValues i), .variable ixv]) :: (T ++ (C ++
+      .expr (some ixv) (.binary .add (.variable ixv) (.number 1)) ::
+      .jump (lLoop i) (some (.binary .lt (.variable ixv) (.variable (vLength i)))) ::
+      .label (lDone i) :: post)) := by
+    rw [hP]; simp [List.append_assoc]
+  have hg0 : P[pre.length]? = some (.expr (some (vValues i)) vals) := get_at hP' rfl
+  have hg1 : P[pre.length + 1]? = some (.expr (some (vLength i)) (.function fnArrayLength [.variable (vValues i)])) :=
+    get_at (A := pre ++ [.expr (some (vValues i)) vals]) (by rw [hP']; simp; rfl) (by simp)
+  have hg2 : P[pre.length + 2]? = some (.jump (lDone i) (some (notE (.variable (vLength i))))) :=
+    get_at (A := pre ++ [.expr (some (vValues i)) vals,
+      .expr (some (vLength i)) (.function fnArrayLength [.variable (vValues i)])]) (by rw [hP']; simp; rfl) (by simp)
+  have hg3 : P[pre.length + 3]? = some (.expr (some ixv) (.number 0)) :=
+    get_at (A := pre ++ [.expr (some (vValues i)) vals,
+      .expr (some (vLength i)) (.function fnArrayLength [.variable (vValues i)]),
+      .jump (lDone i) (some (notE (.variable (vLength i))))]) (by rw [hP']; simp; rfl) (by simp)
+  have hg4 : P[pre.length + 4]? = some (.label (lLoop i)) :=
+    get_at (A := pre ++ [.expr (some (vValues i)) vals,
+      .expr (some (vLength i)) (.function fnArrayLength [.variable (vValues i)]),
+      .jump (lDone i) (some (notE (.variable (vLength i)))),
+      .expr (some ixv) (.number 0)]) (by rw [hP']; simp; rfl) (by simp)
+  have hg5 : P[pre.length + 5]? = some (.expr (some v) (.function fnArrayGet [.variable (vValues i), .variable ixv])) :=
+    get_at (A := pre ++ [.expr (some (vValues i)) vals,
+      .expr (some (vLength i)) (.function fnArrayLength [.variable (vValues i)]),
+      .jump (lDone i) (some (notE (.variable (vLength i)))),
+      .expr (some ixv) (.number 0), .label (lLoop i)]) (by rw [hP']; simp; rfl) (by simp)
+  -- footer positions
+  generalize hH : [Stmt.expr (some (vValues i)) vals,
+      .expr (some (vLength i)) (.function fnArrayLength [.variable (vValues i)]),
+      .jump (lDone i) (some (notE (.variable (vLength i)))),
+      .expr (some ixv) (.number 0), .label (lLoop i),
+      .expr (some v) (.function fnArrayGet [.variable (vValues i), .variable ixv])] = H at hP ⊢
+  have hHn : H.length = 6 := by subst hH; rfl
+  have hHl : ∀ l, Stmt.label l ∈ H → l = lLoop i := by intro l hl; subst hH; simpa using hl
+  have hPH : P = pre ++ H ++ T ++ C ++
+      .expr (some ixv) (.binary .add (.variable ixv) (.number 1)) ::
+      .jump (lLoop i) (some (.binary .lt (.variable ixv) (.variable (vLength i)))) ::
+      .label (lDone i) :: post := by
+    rw [hP]; simp [List.append_assoc]
+  have hg6 : P[pre.length + 6 + T.length + C.length]? = some (.expr (some ixv) (.binary .add (.variable ixv) (.number 1))) :=
+    get_at (A := pre ++ H ++ T ++ C) hPH (by simp <;> omega)
+  have hg7 : P[pre.length + 6 + T.length + C.length + 1]? =
+      some (.jump (lLoop i) (some (.binary .lt (.variable ixv) (.variable (vLength i))))) :=
+    get_at (A := pre ++ H ++ T ++ C ++ [.expr (some ixv) (.binary .add (.variable ixv) (.number 1))])
+      (by rw [hPH]; simp [List.append_assoc]) (by simp <;> omega)
+  have hg8 : P[pre.length + 6 + T.length + C.length + 2]? = some (.label (lDone i)) :=
+    get_at (A := pre ++ H ++ T ++ C ++ [.expr (some ixv) (.binary .add (.variable ixv) (.number 1)),
+      .jump (lLoop i) (some (.binary .lt (.variable ixv) (.variable (vLength i))))])
+      (by rw [hPH]; simp [List.append_assoc]) (by simp <;> omega)
+  have hfl : findLabel P (lLoop i) = some (pre.length + 4) :=
+    find_at (A := pre ++ [.expr (some (vValues i)) vals,
+      .expr (some (vLength i)) (.function fnArrayLength [.variable (vValues i)]),
+      .jump (lDone i) (some (notE (.variable (vLength i)))),
+      .expr (some ixv) (.number 0)]) (by rw [hP']; simp; rfl) (by simp)
+      (by
+        intro hm
+        simp only [List.mem_append, List.mem_cons, List.not_mem_nil, or_false, false_or, reduceCtorEq] at hm
+        exact hf1 .loop i (Nat.le_refl _) (by omega) hm)
+  have hfd : findLabel P (lDone i) = some (pre.length + 6 + T.length + C.length + 2) :=
+    find_at (A := pre ++ H ++ T ++ C ++ [.expr (some ixv) (.binary .add (.variable ixv) (.number 1)),
+      .jump (lLoop i) (some (.binary .lt (.variable ixv) (.variable (vLength i))))])
+      (by rw [hPH]; simp [List.append_assoc]) (by simp <;> omega)
+      (by
+        intro hm
+        simp only [List.mem_append, List.mem_cons, List.not_mem_nil, or_false, false_or, reduceCtorEq] at hm
+        rcases hm with ((hm | hm) | hm) | hm
+        · exact hf1 .done i (Nat.le_refl _) (by omega) hm
+        · have := hHl _ hm; simp [lDone, lLoop] at this
+        · obtain ⟨K, k, he, a, b⟩ := rb _ hm
+          simp only [lDone, Name.gen.injEq] at he; omega
+        · have := hCl _ hm; simp [lDone, lCont] at this)
+  have hfc : hc = true → findLabel P (lCont i) = some (pre.length + 6 + T.length + C.length - 1) := by
+    intro h; subst h
+    simp only [if_true] at hC; subst hC
+    refine find_at (A := pre ++ H ++ T) (by rw [hPH]; simp [List.append_assoc]) (by simp <;> omega) ?_
+    intro hm
+    simp only [List.mem_append] at hm
+    rcases hm with (hm | hm) | hm
+    · exact hf1 .cont i (Nat.le_refl _) (by omega) hm
+    · have := hHl _ hm; simp [lCont, lLoop] at this
+    · obtain ⟨K, k, he, a, b⟩ := rb _ hm
+      simp only [lCont, Name.gen.injEq] at he; omega
+  have hbody := hB _ _ hfd hfc (pre ++ H)
+    (C ++ .expr (some ixv) (.binary .add (.variable ixv) (.number 1)) ::
+      .jump (lLoop i) (some (.binary .lt (.variable ixv) (.variable (vLength i)))) ::
+      .label (lDone i) :: post) hnb
+    (by rw [hPH, hT]; simp [List.append_assoc])
+    (by
+      intro K k a b hm
+      simp only [List.mem_append] at hm
+      rcases hm with hm | hm
+      · exact hf1 K k (by omega) b hm
+      · have := hHl _ hm; simp only [lLoop, Name.gen.injEq] at this; omega)
+    (by
+      intro K k a b hm
+      simp only [List.mem_append, List.mem_cons, reduceCtorEq, false_or, Stmt.label.injEq] at hm
+      rcases hm with hm | hm | hm
+      · have := hCl _ hm; simp only [lCont, Name.gen.injEq] at this; omega
+      · simp only [lDone, Name.gen.injEq] at hm; omega
+      · exact hf2 K k (by omega) b hm)
+  simp only [List.length_append, hHn, hT, Option.isSome_some] at hbody
+  trace_state
+  sorry
 
 mutual
 theorem simS (lp : Option (Name × Name)) (pb pc : Nat)
